@@ -1,16 +1,18 @@
 #!/bin/sh
-# usage: tools/try_seed.sh <patch.diff> [props...]   - apply a seeded change to /repo, run the quick checks, undo it
+# usage: tools/try_seed.sh <patch.diff> [props...]
+#   copies /repo's working tree (tracked files, as they are now) to a scratch directory, applies the seeded change
+#   THERE, runs the quick checks against it (--root) and removes the copy.  /repo itself is not touched.
 # prints one line per check:  <prop> rc=<0|1|2> [first VIOLATION / ANALYSIS-ERROR line]
 P="$1"; shift
 PROPS="${*:-C01 C02 C03 C04 C05 C06 C07 C08 C09 C10 C11 C12 C13 C15 C17 C18 C19 C20}"
 cd /verif || exit 9
-if [ -n "$(git -C /repo status --porcelain)" ]; then echo "REFUSING: /repo is not clean"; exit 9; fi
-git -C /repo apply "$P" || { echo "patch does not apply"; exit 9; }
+S=$(mktemp -d /tmp/ts_XXXXXX)
+(cd /repo && git ls-files -z | rsync -a --from0 --files-from=- . "$S"/)
+(cd "$S" && git init -q . 2>/dev/null && git apply "$P") || { echo "patch does not apply"; rm -rf "$S"; exit 9; }
 for p in $PROPS; do
-  out=$(./check "$p" --tier quick --no-evidence 2>&1 | grep -v "WARNING conda")
-  rc=$?
+  out=$(./check "$p" --tier quick --no-evidence --root "$S" 2>&1 | grep -v "WARNING conda")
   rc=$(printf '%s\n' "$out" | grep -q "^VIOLATION" && echo 1 || (printf '%s\n' "$out" | grep -q "^ANALYSIS-ERROR" && echo 2 || echo 0))
   first=$(printf '%s\n' "$out" | grep -E "VIOLATED at|^ANALYSIS-ERROR" | head -2 | cut -c1-230 | tr '\n' ' ')
   echo "$p rc=$rc $first"
 done
-git -C /repo checkout -- . ; git -C /repo status --porcelain | head -3
+rm -rf "$S"
